@@ -947,6 +947,13 @@ class Exec:
         if sort is Bool and not isinstance(v, (VBool, VDyn)) and what == "result" and \
                 self.current_contract is not None and "truthy_result" in self.current_contract.note:
             return VBool(self.truth(p, v))     # result used for its truth value only (documented abstraction)
+        if isinstance(v, VDyn) and isinstance(sort, Obj) and sort.cls in self.repo.classes:
+            # an object of the declared class or of one of its subclasses
+            subs = [c for c in self.repo.classes if self.repo.is_subclass(c, sort.cls)]
+            c = z3.And(Val.is_VObj(v.t), z3.Or(*[Val.cls(v.t) == V.CLASSES.id(k) for k in subs]))
+            if not self.implied(p, c):
+                self.emit("argtype:%s" % what, p, c, "argtype")
+            return VObj(Val.ref(v.t), sort.cls)
         if isinstance(v, VDyn):
             c = is_sort_cond(v.t, sort)
             if not self.implied(p, c):
